@@ -108,14 +108,29 @@ def real_cli_cases():
              (["-2", "-v", v31], ""), (["-4", "-v", v2], ""), (["-v", v31 + "/"], ""), (["-2", "-4", "-v", v2], ""),
              (["-2", "-n"], "N\nL\nN\nP\nP\nC\n"), (["-4", "-n"], "N\nL\nN\nN\nN\nH\nL\n"), (["-n"], ""),
              (["-4", "-a", "-n"], "\n".join(["N", "L", "N", "N", "N", "H", "H", "H", "N", "N", "N"] + [""] * 20 + ["Red"]) + "\n"),
+             (["-a", "-n"], "\n".join(["N", "L", "N", "N", "U", "H", "H", "H", "P", "T", "", "H", "", "", "A"] + [""] * 12) + "\n"),
+             (["-3", "-a"], "\n".join(["N", "L", "N", "N", "C", "H", "L", "N"] + [""] * 20) + "\n"),
+             (["-2", "-a", "-n"], "\n".join(["N", "L", "N", "P", "P", "C", "POC", "", "UR", "LM", "", "H", "", ""] + [""] * 6) + "\n"),
              (["-v", "CVSS:3.1/AV:N/AC:L/PR:N/UI:N/S:U/C:H/I:H/A:\u00e9"], ""), (["-2", "-v", "\u00e9"], ""), (["-4", "-v", "x\u4e2d"], "")]
     return cases
 
 
-def run_real_cli(py, argv, stdin_text):
+def real_cli_runs():
+    """(argv, stdin, extra environment): every case as is; interactive ones also on narrow terminals."""
+    out = []
+    for argv, sin in real_cli_cases():
+        out.append((argv, sin, {}))
+        if not any(a.startswith("-v") or a.endswith("v") or "v" in a[1:] and a.startswith("-") and not a.startswith("--") for a in argv):
+            for cols in ("70", "36"):
+                out.append((argv, sin, {"COLUMNS": cols, "LINES": "24"}))
+    return out
+
+
+def run_real_cli(py, argv, stdin_text, extra_env=None):
     env = dict(os.environ)
     env.update({"PYTHONPATH": bootstrap.REPO, "PYTHONIOENCODING": "utf-8", "LC_ALL": "C.UTF-8", "PYTHONDONTWRITEBYTECODE": "1",
                 "PYTHONHASHSEED": "0"})
+    env.update(extra_env or {})
     try:
         p = subprocess.run([py, "-B", "-m", "cvss.cvss_calculator"] + argv, cwd=bootstrap.REPO, env=env,
                            input=stdin_text.encode("utf-8"), stdout=subprocess.PIPE, stderr=subprocess.PIPE, timeout=120)
@@ -173,7 +188,7 @@ def run(R):
             if p.returncode == 0 and os.path.exists(out):
                 with open(out, encoding="utf-8") as f:
                     tr = json.load(f)
-            real = [run_real_cli(py, argv, sin) for argv, sin in real_cli_cases()]
+            real = [run_real_cli(py, argv, sin, xe) for argv, sin, xe in real_cli_runs()]
             return name, p.returncode, p.stderr.decode("utf-8", "replace")[-600:], tr, real
 
         items = [("ref", ref_py)] + [("%d.%d.%d" % v, p) for p, v in sorted(interps.items(), key=lambda kv: kv[1])]
@@ -217,7 +232,7 @@ def run(R):
                 P.violation("transcript-equal", key, {"interpreter": name, "section": sec, "item": item}, reference=a, observed=b)
             P.distinct_n += len(tr[sec])
         P.ev("real-cli-equal")
-        for (argv, sin), a, b in zip(real_cli_cases(), refreal, real):
+        for (argv, sin, xe), a, b in zip(real_cli_runs(), refreal, real):
             P.evaluations += 1
             P.distinct_n += 1
             ka = {k: a.get(k) for k in ("exit", "out", "traceback")}
@@ -226,7 +241,7 @@ def run(R):
                 key = "C20:%s:real-cli:%s-differs" % (tag, first_diff(ka, kb))
                 if tag == "py2.7" and non_ascii(argv) and "Unicode" in b.get("err_tail", ""):
                     key = "C20:py2.7:real-cli:non-ascii-argument:%s" % b["err_tail"].split(":")[0]
-                P.violation("real-cli-equal", key, {"interpreter": name, "argv": argv, "stdin": sin}, reference=a, observed=b)
+                P.violation("real-cli-equal", key, {"interpreter": name, "argv": argv, "stdin": sin, "env": xe}, reference=a, observed=b)
     R.coverage_extra["interpreters"] = sorted(n for n, _, _, tr, _ in results[1:] if tr is not None)
 
 
@@ -240,8 +255,8 @@ def replay(R, w):
         return
     R.P.evaluations += 1
     if "argv" in case:
-        a = run_real_cli(sys.executable, case["argv"], case["stdin"])
-        b = run_real_cli(py[0], case["argv"], case["stdin"])
+        a = run_real_cli(sys.executable, case["argv"], case["stdin"], case.get("env"))
+        b = run_real_cli(py[0], case["argv"], case["stdin"], case.get("env"))
         R.P.ev("real-cli-equal")
         if {k: a.get(k) for k in ("exit", "out", "traceback")} != {k: b.get(k) for k in ("exit", "out", "traceback")}:
             R.P.violation("real-cli-equal", w["key"], case, reference=a, observed=b)
